@@ -30,6 +30,12 @@ EXPLANATION = (
     'in {0,1}, kernel binary vs source.')
 EXPLANATION_ADDED = (' Also (R5): an operand whose own include flag is false is complemented, and an operand that is itself a compound is padded with the value it has outside its own box (the serial pad value is partially evaluated on the 12 operator x include cases of a nested compound).')
 EXPLANATION += EXPLANATION_ADDED
+EXPLANATION_ADDED2 = (' (R0, thorough) assumption check only: the generated C files are not older than the .pyx sources the rules analysed.')
+EXPLANATION += EXPLANATION_ADDED2
+EXPLANATION_ADDED3 = (' (R5 also) the compound mask is decided on nested operands (depth-3 probes) and by an induction step over 48 operand-shape cases: if both operand masks are the centre-mode masks on their boxes, the padded combination is the centre-mode mask of the compound on the union box (pads and box by order types).')
+EXPLANATION += EXPLANATION_ADDED3
+EXPLANATION_ADDED4 = (" (R8) to_mask and every property/method of `self` it reads keep nothing between calls, unless every parameter writer (each descriptor's __set__, the class's __setattr__) drops the remembered entry and the remembered value reads only by-value parameters (shared memo analysis, see C01.R8).")
+EXPLANATION += EXPLANATION_ADDED4
 TRUSTED = ['the .so kernels were built from the .pyx analysed', 'np.pad(a, ((b,t),(l,r))) pads axis 0 then axis 1',
            'Quantity.to(u.rad).value is the angle in radians']
 ASSUMPTIONS = ['real arithmetic', 'external calls are pure']
@@ -778,6 +784,24 @@ def r7(ctx):
         ctx.ok('PixelRegion._validate_mode', 'raises exactly on invalid mode / non-positive-int subpixels')
 
 
+def r8(ctx):
+    """the mask is computed from the region's current parameters: neither to_mask nor a property/method of `self` it reads
+    remembers a result across calls unless every parameter writer drops it (shared analysis: c01.memoised_geometry)."""
+    from .c01 import memoised_geometry
+    m = ctx.model
+    for ci in m.region_classes('pixel'):
+        if m.method(ci, 'to_mask') is None:
+            continue
+        memo = memoised_geometry(m, ci, ('to_mask',), rule='C02.R8')
+        if memo:
+            name, why, f = memo[0]
+            ctx.bad(ci.name, f'memoised:{name}',
+                    f'{ci.name}.{name} {why}: after a parameter is assigned the mask is computed from remembered values and no '
+                    'longer samples the current membership function', f.loc())
+        else:
+            ctx.ok(ci.name, 'to_mask and what it reads are recomputed on every call')
+
+
 def r0(ctx):
     """Assumption check (never a violation): the generated C next to each kernel quotes the current .pyx."""
     import os
@@ -823,4 +847,5 @@ RULES = [
     RuleDef('R5', 'compound mask: padding to the union box, operator, box', r5, 1),
     RuleDef('R6', 'every to_mask returns a RegionMask or raises NotImplementedError', r6, 14),
     RuleDef('R7', '_validate_mode rejection predicate', r7, 1),
+    RuleDef('R8', 'to_mask reads current parameters only (no remembered kernel arguments)', r8, 12),
 ]
